@@ -261,6 +261,19 @@ class LoopRewrite(ast.NodeTransformer):
         return [ast.copy_location(assign, node), ast.copy_location(outer, node)]
 
 
+class WhileOnce(ast.NodeTransformer):
+    """`while c: body`  ->  `if c: body`  : ONE generic iteration from the (caller-supplied) generic pre-state.
+    Used with an inductive invariant: the caller sets up an arbitrary state satisfying the invariant and checks it after the body."""
+
+    def visit_While(self, node):
+        self.generic_visit(node)
+        return ast.copy_location(ast.If(test=node.test, body=node.body, orelse=node.orelse or []), node)
+
+
+def while_once(tree):
+    return WhileOnce().visit(tree)
+
+
 def loop_rewrite(tree):
     return LoopRewrite().visit(tree)
 
